@@ -1,3 +1,4 @@
+import TxdbusModel.Gen.Message
 /-
 C14 - code model of the routing part of txdbus's built-in bus (`txdbus/bus.py`), as a step
 function over events.  Core Lean only.
@@ -55,6 +56,8 @@ structure Msg where
   serial : Nat
   noReply : Bool
   noAutoStart : Bool
+  /-- the flags byte without bits 0x1 and 0x2 (0x4 ALLOW_INTERACTIVE_AUTHORIZATION, unassigned bits) -/
+  otherFlags : Nat
   path : Option Name
   iface : Option Name
   member : Option Name
@@ -62,8 +65,36 @@ structure Msg where
   replySerial : Option Nat
   dest : Option Name
   sender : Option Name
+  /-- opaque token for the header fields whose code `_hcode` does not know ([] = there are none) -/
+  extra : Name
   body : Name
   deriving DecidableEq, Repr, Inhabited
+
+def MType.cls : MType → Txdbus.Msg.MsgClass
+  | .call => .methodCall | .ret => .methodReturn | .err => .error | .sig => .signal
+
+/-- Is header attribute `a` in `_headerAttrs` of the class of a type-`t` message (table generated from
+txdbus/message.py)?  Only those attributes are written by `_marshal`. -/
+def keeps (t : MType) (a : Txdbus.Msg.Attr) : Bool :=
+  (Txdbus.Gen.Message.headerAttrs t.cls).any (fun e => e.1 = a)
+
+/-- What the bus writes for a message it received from the connection named `nm`:
+`parseMessage` (every known header field becomes an attribute, fields with unknown codes are dropped, the
+flags byte is split into expectReply / autoStart / otherFlags), `msg.sender = nm`,
+`_marshal(False, rawBody=msg.rawBody)` (same serial; only the attributes in the class's `_headerAttrs`
+table are written; body bytes and byte order as received = the opaque token). -/
+def remarshal (m : Msg) (nm : Name) : Msg :=
+  { mtype := m.mtype, serial := m.serial, noReply := m.noReply, noAutoStart := m.noAutoStart,
+    otherFlags := m.otherFlags,
+    path := if keeps m.mtype .path then m.path else none,
+    iface := if keeps m.mtype .interface then m.iface else none,
+    member := if keeps m.mtype .member then m.member else none,
+    errorName := if keeps m.mtype .errorName then m.errorName else none,
+    replySerial := if keeps m.mtype .replySerial then m.replySerial else none,
+    dest := if keeps m.mtype .destination then m.dest else none,
+    sender := if keeps m.mtype .sender then some nm else none,
+    extra := [],
+    body := m.body }
 
 /-- Python truthiness of `msg.destination` (None or '' are false). -/
 def truthy : Option Name → Bool
@@ -96,6 +127,8 @@ structure Out where
   named : Option (ConnId × Name) := none
   /-- `transport.loseConnection()` was called in this step -/
   lose : Bool := false
+  /-- `clientDisconnected` raised KeyError (a remembered rule id or the client's name is missing) -/
+  raised : Bool := false
   deriving Repr
 
 /-- Per-connection state of a `BusProtocol` after authentication. -/
@@ -205,7 +238,7 @@ def modifyConn (s : State ρ) (i : ConnId) (f : Conn → Conn) : State ρ :=
 
 /-- The signal `sendSignal` / `broadcastSignal` build. -/
 def busSignalMsg (member body : Name) (dest : Option Name) : Msg :=
-  { mtype := .sig, serial := 0, noReply := false, noAutoStart := false,
+  { mtype := .sig, serial := 0, noReply := false, noAutoStart := false, otherFlags := 0, extra := [],
     path := some busPath, iface := some busName, member := some member,
     errorName := none, replySerial := none, dest := dest, sender := none, body := body }
 
@@ -250,9 +283,11 @@ def busCall (cfg : Cfg ρ) (s : State ρ) (i : ConnId) (nm : Name) (m : Msg) :
       let r1 := applyEffects cfg s effs
       (r1.1, r1.2 ++ (if m.noReply then [] else reply r1.1 nm m))
 
-/-- The tail of `Bus.messageReceived`: forward and / or route.  `m` carries the true sender. -/
-def dispatch (cfg : Cfg ρ) (s : State ρ) (i : ConnId) (m : Msg) : List Delivery :=
-  let fwd := Payload.fwd i m
+/-- The tail of `Bus.messageReceived`: forward and / or route.  `m` is the message object (all parsed
+attributes, true sender): destination test and rule matching look at it; `w` is what `msg.rawMessage`
+holds after the re-marshalling: that is what gets written. -/
+def dispatch (cfg : Cfg ρ) (s : State ρ) (i : ConnId) (m w : Msg) : List Delivery :=
+  let fwd := Payload.fwd i w
   if cfg.routeUnicast then
     -- before the repair of F21: forwarded AND routed
     (match m.dest with
@@ -265,11 +300,12 @@ def dispatch (cfg : Cfg ρ) (s : State ρ) (i : ConnId) (m : Msg) : List Deliver
         else route cfg s m fwd
     | none => route cfg s m fwd
 
-/-- `Bus.messageReceived(p, msg)`; `m` carries the true sender `nm`. -/
-def messageReceived (cfg : Cfg ρ) (s : State ρ) (i : ConnId) (nm : Name) (m : Msg) (op : BusOp ρ) :
+/-- `Bus.messageReceived(p, msg)`; `m` = the message object with the true sender `nm`, `w` = its
+re-marshalled form. -/
+def messageReceived (cfg : Cfg ρ) (s : State ρ) (i : ConnId) (nm : Name) (m w : Msg) (op : BusOp ρ) :
     State ρ × List Delivery :=
   let r1 := if m.mtype = .call ∧ m.dest = some busName then busCall cfg s i nm m op else (s, [])
-  (r1.1, r1.2 ++ dispatch cfg r1.1 i m)
+  (r1.1, r1.2 ++ dispatch cfg r1.1 i m w)
 
 /-- `if not self.uniqueName: self.bus.clientConnected(self)`; returns the state, the connection's
 name and what was allocated. -/
@@ -292,7 +328,7 @@ def stepNamed (cfg : Cfg ρ) (s1 : State ρ) (i : ConnId) (nm : Name) (named : O
   else
     -- a first call that is not addressed to the bus: transport.loseConnection(), processing continues
     let lose : Bool := decide (called = false ∧ m.mtype = .call ∧ m.dest ≠ some busName)
-    let r := messageReceived cfg s1 i nm { m with sender := some nm } op
+    let r := messageReceived cfg s1 i nm { m with sender := some nm } (remarshal m nm) op
     (r.1, { deliveries := r.2, named := named, lose := lose })
 
 /-- `BusProtocol.rawDBusMessageReceived` for connection `i` (authenticated, not yet lost). -/
@@ -309,12 +345,25 @@ def dropClient (s : State ρ) : Option Name → State ρ
   | some n => { s with clients := ddel n s.clients }
   | none => s
 
+/-- Every key `clientDisconnected` deletes is there: the remembered rule ids in the router, the name in
+`Bus.clients`. -/
+def disconnectOk (s : State ρ) (c : Conn) : Bool :=
+  c.matchRules.all (fun id => s.rules.any (fun r => r.id == id)) &&
+  (match c.uniqueName with
+   | some n => (dget n s.clients).isSome
+   | none => true)
+
 /-- `BusProtocol.connectionLost` -> `Bus.clientDisconnected`. -/
 def stepDisconnect (cfg : Cfg ρ) (s : State ρ) (i : ConnId) (effs : List Effect) : State ρ × Out :=
   match s.conns[i]? with
   | none => (s, {})
   | some c =>
     if c.isConnected = false then (s, {}) else
+    -- `del self._rules[rule_id]` / `del self.clients[name]` raise KeyError when the key is missing; the loop
+    -- then stops half-way.  Which rules are already gone depends on set order: the model keeps only
+    -- `isConnected = False` (theorem `disconnect_completes`: this never happens on the repaired code).
+    if disconnectOk s c = false then
+      ({ s with conns := s.conns.set i { c with isConnected := false } }, { raised := true }) else
     -- self.isConnected = False;  for rule_id in proto.matchRules: self.router.delMatch(rule_id)
     let s2 : State ρ := { s with conns := s.conns.set i { c with isConnected := false },
                                  rules := s.rules.filter (fun r => !(c.matchRules.contains r.id)) }
@@ -345,6 +394,9 @@ end
 
 structure SimpleRule where
   mtype : Option MType := none
+  /-- `sender='...'`: stored by `Rule.add` with `setattr`, never read by `Rule.match` (known finding
+  `sender-constraint-ignored`): deliberately absent from `holds` -/
+  sender : Option Name := none
   iface : Option Name := none
   member : Option Name := none
   path : Option Name := none
